@@ -31,14 +31,17 @@ def run(ctx, db, tier):
     who_writes(ctx, db)
     no_value(ctx, db)
     state_tag_agrees(ctx, db)
+    has_value_agrees(ctx, db)
+    from . import C02
+    C02.resolve_one_rmw(ctx, db, 'C01.resolve-one-rmw')
     shared.claimed_promise(ctx, db, 'C01.lost-claim-starts-nothing')
     if ctx.cfg == 'assert':
         witness.positive(ctx, 'C01.types', 'C01_pos.cpp', 'promise<T> is move-only, future<T> is neither copyable nor movable (static_assert witnesses over the value-type matrix)')
         witness.negative(ctx, 'C01.types-neg', 'C01_neg.cpp', 'copying a promise / moving a future must not compile')
 
 
-def claim_rmw(ctx, db):
-    rid = ctx.rule('C01.claim-rmw', 'ATOMIC', 'promise::claim performs exactly one operation on the owner pointer: an atomic read-modify-write exchange whose new value is null, and returns its result')
+def claim_rmw(ctx, db, rid='C01.claim-rmw'):
+    rid = ctx.rule(rid, 'ATOMIC', 'promise::claim performs exactly one operation on the owner pointer: an atomic read-modify-write exchange whose new value is null, and returns its result')
     for f in db.need(CLAIM)[:1] if False else _one_per_key(db, CLAIM):
         ops = [e for e in f.events() if atomic.is_atomic_call(e) and norm(e.get('field')) == OWNER]
         ok = len(ops) == 1 and atomic.opname(ops[0]) == 'exchange' and (ops[0].get('args') or [{}])[0].get('const') == 0
@@ -147,12 +150,15 @@ def receivers(ctx, db):
     rid = ctx.rule('C01.claim-guards', 'WHO+PATHS', 'every call of future::set/set_ref/resolve has as receiver: the result of promise::claim(), '
                    'async_promise::_future, the owner pointer inside ~promise, or the future itself (its own members); parameters are followed to all call sites', floor=5)
 
-    def classify(f, e, depth=0):
+    def classify(f, e):
         recv = e.get('recv') or ''
+        o = f.ev(e.get('recv_ev')) if e.get('recv_ev') is not None else None
+        return classify_value(f, o, recv, 0)
+
+    def classify_value(f, o, recv, depth):
         cls = norm(f.get('class') or '')
         if recv == 'this' and cls in ('cocls::future', 'cocls::future_common'):
             return 'self'
-        o = f.ev(e.get('recv_ev')) if e.get('recv_ev') is not None else None
         org = value_origin(f, o) if o is not None else value_origin(f, recv)
         path = recv
         if org is not None and org.k == 'call' and norm(org.get('callee')) == CLAIM:
@@ -164,7 +170,8 @@ def receivers(ctx, db):
         if org is not None and org.k in ('use', 'read') and re.fullmatch(r'param:\w+', org.get('path') or ''):
             path = org['path']
         m = re.fullmatch(r'param:(\w+)', path or '')
-        if m and depth < 2:
+        if m and depth < 3:
+            # a parameter (of a helper): every call site must pass a value that is itself an accepted receiver
             idx = next((i for i, p in enumerate(f['params']) if p['name'] == m.group(1)), None)
             sites = []
             for g in db.all_instances():
@@ -172,10 +179,9 @@ def receivers(ctx, db):
                     if ce.k == 'call' and ce.get('callee_key') == f['key'] and idx is not None and idx < len(ce.get('args') or []):
                         a = ce['args'][idx]
                         ao = g.ev(a.get('ev')) if a.get('ev') is not None else None
-                        org2 = value_origin(g, ao) if ao is not None else value_origin(g, a.get('path') or '')
-                        sites.append('claim' if (org2 is not None and org2.k == 'call' and norm(org2.get('callee')) == CLAIM) else 'other')
-            if sites and all(s == 'claim' for s in sites):
-                return 'claim-via-param'
+                        sites.append(classify_value(g, ao, a.get('path') or '', depth + 1))
+            if sites and all(not s.startswith('other') and s != 'param-uncalled' for s in sites):
+                return sorted(set(sites))[0] + '-via-param'
             if not sites:
                 return 'param-uncalled'
         return 'other:' + (path or '?')
@@ -191,8 +197,8 @@ def receivers(ctx, db):
                 ctx.ob(rid, f, e['loc'], not c.startswith('other'), '%s is called on %s' % (norm(e['callee']).split('::')[-1], c), desc='%s on a receiver that is not the claim result' % norm(e['callee']))
 
 
-def dtor_and_assign(ctx, db):
-    rid = ctx.rule('C01.dtor-resolves', 'COUNT+ORDER', '~promise resolves the future exactly once when the owner pointer is non-null and not otherwise; '
+def dtor_and_assign(ctx, db, rid='C01.dtor-resolves'):
+    rid = ctx.rule(rid, 'COUNT+ORDER', '~promise resolves the future exactly once when the owner pointer is non-null and not otherwise; '
                    'move-assignment drops the overwritten promise before it takes the new owner', floor=2)
     for f, trs in traces_of(db, 'cocls::promise::~promise', depth=0, per_instance=True):
         trs = [t for t in trs if live(t)]
@@ -287,18 +293,32 @@ def no_value(ctx, db):
         ctx.paths(rid, len(trs))
         bad = None; seen_cancel = False
         for tr in trs:
-            sw = [it for it in tr if it.k == 'switch']
-            if not sw:
-                continue
-            lab = sw[0].label or {}
-            is_default = lab.get('kind') == 'default' or (lab.get('kind') == 'case' and lab.get('const') == 0)
-            if not is_default:
+            # which state tags are still possible at the end of this path (switch arms and ==/!= tests of the tag or of a local copy of it)
+            possible = {'not_value', 'value', 'value_ref', 'exception'}
+            names = {'this->_state'}; tested = False
+            for it in tr:
+                if it.k == 'decl' and (it.get('init') or '') in names:
+                    names.add(it.get('var'))
+                elif it.k == 'switch' and (it.path or '') in names:
+                    tested = True
+                    lab = it.label or {}
+                    if not (lab.get('kind') == 'default' or (lab.get('kind') == 'case' and lab.get('const') == 0)):
+                        possible.discard('not_value')
+                elif it.k == 'branch':
+                    m = re.fullmatch(r'\((.+) (==|!=) decl:cocls::future_common::State::(\w+)\)', it.path or '')
+                    if m and m.group(1) in names:
+                        tested = True
+                        if (m.group(2) == '==') == bool(it.val):
+                            possible &= {m.group(3)}
+                        else:
+                            possible.discard(m.group(3))
+            if not tested or 'not_value' not in possible:
                 continue
             thr = [it for it in tr if it.k == 'throw']
             if live(tr) or not thr:
                 bad = 'the not-a-value arm can return normally'
                 continue
-            pend = [it for it in tr if it.k == 'branch' and 'pending' in (it.path or '')]
+            pend = [it for it in tr if it.k == 'branch' and 'pending' in (it.path or '') + (it.get('opath') or '')]
             if pend and pend[-1].val is False:
                 if 'await_canceled_exception' in (thr[-1].get('type') or ''):
                     seen_cancel = True
@@ -312,9 +332,9 @@ def no_value(ctx, db):
 TAG_OF_MEMBER = {'_value': 'value', '_ptr_value': 'value_ref', '_exception': 'exception'}
 
 
-def state_tag_agrees(ctx, db):
+def state_tag_agrees(ctx, db, rid='C01.state-tag-agrees'):
     """the future's payload is a tagged union: writers and readers must agree on which member belongs to which tag"""
-    rid = ctx.rule('C01.state-tag-agrees', 'SIBLINGS', 'the future\'s payload union is used consistently with its state tag in every instantiation: each set/set_ref overload constructs or assigns '
+    rid = ctx.rule(rid, 'SIBLINGS', 'the future\'s payload union is used consistently with its state tag in every instantiation: each set/set_ref overload constructs or assigns '
                    'one union member and then stores exactly the tag of that member (value / value_ref / exception) as its last write; the destructor destroys, and value() reads, '
                    'the member that belongs to the switch arm they are in', floor=4)
     T = Tracer(db, depth=0)
@@ -342,6 +362,8 @@ def state_tag_agrees(ctx, db):
                 tag = (tags[0].get('rhs') or '').split('::')[-1]
                 if len(members) > 1:
                     bad = bad or 'more than one union member is written'
+                elif name.endswith('::set_ref') and (members != ['_ptr_value'] or tag != 'value_ref'):
+                    bad = bad or 'set_ref stores %s with tag %s: a reference result must use the pointer member and the value_ref tag, the only representation a future<T> and the future<T&> constructed inside it agree on' % (members, tag)
                 elif members and TAG_OF_MEMBER[members[0]] != tag:
                     bad = bad or 'member %s is stored but the tag says %s: readers will interpret the bytes as another type' % (members[0], tag)
                 elif not members and not (inst_void and tag == 'value'):
@@ -377,3 +399,19 @@ def state_tag_agrees(ctx, db):
                 continue
             seen.add(k)
             ctx.ob(rid, f, f['key'], bad is None, '%s %s only the member of its switch arm' % (name.split('::')[-1], kind) + ('' if not bad else ' -- ' + bad), desc=bad, inst=f['inst'])
+
+
+def has_value_agrees(ctx, db):
+    """has_value(): the two ways to read the answer (co_await -> await_resume, conversion to bool) must both say "resolved with anything but no-value" """
+    rid = ctx.rule('C01.has-value-agrees', 'SIBLINGS', 'future::awaitable_bool::await_resume and operator bool return exactly (_state != not_value) on every path: a value, a reference and an '
+                   'exception all count as "has a value", only a dropped promise does not', floor=2)
+    for name in ('cocls::future::awaitable_bool::await_resume', 'cocls::future::awaitable_bool::operator bool'):
+        for f, trs in traces_of(db, name, per_instance=False):
+            trs = [t for t in trs if live(t)]
+            ctx.paths(rid, len(trs))
+            bad = None
+            for tr in trs:
+                p = ret_expr(tr) or ''
+                if not (re.fullmatch(r'\((.*_owner(->|\.)_state) != decl:cocls::future_common::State::not_value\)', p) or re.fullmatch(r'!\(\((.*_owner(->|\.)_state) == decl:cocls::future_common::State::not_value\)\)', p)):
+                    bad = bad or ('a path answers %s' % (p or '?')[:90], tr)
+            ctx.ob(rid, f, f['key'], bad is None and len(trs) > 0, '%s answers _state != not_value' % name.split('::')[-1] + ('' if not bad else ' -- ' + bad[0]), desc=bad[0] if bad else None)
